@@ -60,7 +60,7 @@ def _ite_bool(a, b, c):
 
 BOOL_OPS = dict(tables.BDD_SPEC)
 BOOL_OPS.update({"Not": lambda a: 1 - a, "Ite": _ite_bool})
-ZBDD_OPS = {"Union": lambda a, b: a | b, "Intsec": lambda a, b: a & b, "Diff": lambda a, b: a & (1 - b),
+ZBDD_OPS = {"Ite": lambda a, b, c: b if a else c, "Union": lambda a, b: a | b, "Intsec": lambda a, b: a & b, "Diff": lambda a, b: a & (1 - b),
             "SymmDiff": lambda a, b: a ^ b}
 TVL_OPS = dict(tables.TDD_SPEC)
 TVL_OPS.update({"Not": lambda a: 2 - a, "Ite": __import__("ewrap").tvl_ite})
@@ -82,6 +82,10 @@ def snode(name, level, kids, tag=None):
 
 
 def lab(e):
+    if isinstance(e, (tuple, list)):
+        return "[%s]" % ", ".join(lab(x) for x in e)
+    if not isinstance(e, Edge):
+        return repr(e)
     n = e.node
     c = "!" if complemented(e) else ""
     if n[0] == "A":
@@ -89,9 +93,11 @@ def lab(e):
     if n[0] == "S":
         return c + "%s@L%d(%s)" % (n[1].name, n[1].level, ",".join(lab(k) for k in n[1].children))
     if n[0] == "OP":
-        return c + "%s(%s)" % (n[1], ", ".join(lab(x) for x in n[2]))
+        return c + "%s(%s%s)" % (n[1], ", ".join(lab(x) for x in n[2]), "" if len(n) < 4 else "; %s" % lab(n[3]))
     if n[0] == "MK":
         return c + "node@L%s(%s)" % (n[1], ", ".join(lab(x) for x in n[2]))
+    if n[0] == "TAUT":
+        return "tautology@L%s" % (n[1],)
     if n[0] == "T":
         return c + "T:%s" % (n[1].short if isinstance(n[1], Enum) else n[1],)
     return c + repr(n)
@@ -118,7 +124,10 @@ def den(spec, e, val, zeroed=frozenset()):
 
     def var(l):
         return 0 if l in zeroed else val[("v", l)]
-    if n[0] == "A":
+    if n[0] == "TAUT":
+        # ZBDD tautology of a level: every subset of the variables on that level and below
+        v = 0 if any(var(l) for l in val["$levels"] if l < n[1]) else 1
+    elif n[0] == "A":
         v = val[n[1]]
         if alg.zs and any(var(l) for l in val["$levels"]):
             # a family over the variables below all modelled levels contains no modelled variable
@@ -153,6 +162,32 @@ def den(spec, e, val, zeroed=frozenset()):
                 val2[("v", l)] = b
             x = den(spec, body, val2, zeroed)
             v = x if v is None else QFOLD[n[1]](v, x)
+    elif n[0] == "OP" and n[1] in ("Subset0", "Subset1", "Change"):
+        # set-family operations on variable `n[3]` (a modelled level): chi'(a) in terms of chi(a)
+        body, l = n[2][0], n[3]
+        if l not in val["$levels"]:
+            raise Unrecognised("subset variable on unmodelled level %r" % (l,))
+        if l in zeroed:
+            zeroed = zeroed - {l}
+            val = dict(val)
+            val[("v", l)] = 0
+        present = val[("v", l)]
+        val2 = dict(val)
+        if n[1] == "Subset0":
+            v = 0 if present else den(spec, body, val2, zeroed)
+        elif n[1] == "Subset1":
+            val2[("v", l)] = 1
+            v = 0 if present else den(spec, body, val2, zeroed)
+        else:
+            val2[("v", l)] = 0 if present else 1
+            v = den(spec, body, val2, zeroed)
+    elif n[0] == "OP" and n[1] == "Subst":
+        body, table = n[2][0], n[3]
+        val2 = dict(val)
+        for l in val["$levels"]:
+            if l < len(table):
+                val2[("v", l)] = 0 if den(spec, table[l], val, zeroed) else 1
+        v = den(spec, body, val2, zeroed)
     elif n[0] == "OP" and n[1] == "Restrict":
         body, cube = n[2][0], n[2][1]
         val2 = dict(val)
@@ -288,6 +323,20 @@ def bden(spec, e, B):
         for key, _ in sorted(bcube_forced(spec, n[2][1], B).items()):
             c0, c1 = B.cof(v, key, 0), B.cof(v, key, 1)
             v = {"Forall": c0 & c1, "Exists": c0 | c1, "Unique": c0 ^ c1}[n[1]]
+    elif k == "OP" and n[1] == "Subst":
+        body = bden(spec, n[2][0], B)
+        table = n[3]
+        lv = [l for l in B.levels if l < len(table)]
+        repl = {l: bden(spec, table[l], B) for l in lv}
+        v = 0
+        for bs in itertools.product((0, 1), repeat=len(lv)):
+            # all valuations where, for every substituted level, "replacement is true" <=> branch 0 is selected
+            sel = B.full
+            c = body
+            for l, b in zip(lv, bs):
+                sel &= (B.full & ~repl[l]) if b else repl[l]
+                c = B.cof(c, ("v", l), b)
+            v |= sel & c
     elif k == "OP" and n[1] == "Restrict":
         v = bden(spec, n[2][0], B)
         for key, b in bcube_forced(spec, n[2][1], B).items():
@@ -327,6 +376,8 @@ def contains_level_at_or_above(e, level):
     n = e.node
     if n[0] == "S":
         return n[1].level <= level
+    if n[0] == "OP" and n[1] == "Subst":
+        return False     # the replacement functions may mention any level: `ite` re-establishes the order
     if n[0] == "OP":
         return any(contains_level_at_or_above(x, level) for x in n[2])
     if n[0] == "MK":
@@ -400,7 +451,7 @@ class StepDomain(epick.PickDomain):
     def apply_meaning(self, did, consts, edges):
         m = self.algos[did]
         if isinstance(m, tuple) and m[0] == "build":
-            return m[1](self, consts, edges)
+            return m[1](self, consts, list(edges))
         return Edge(("OP", self.opname(did, consts), tuple(edges)), self.default_tag())
 
     def _consts_of(self, node, env):
@@ -425,7 +476,30 @@ class StepDomain(epick.PickDomain):
             it.recv(e, env)
             self.adds.append(it.args(e, env))
             return ()
-        if m.endswith("Recursor::binary") or m.endswith("Recursor::ternary"):
+        if name == "zbdd_cache":
+            it.recv(e, env)
+            return Opaque("zbddcache")
+        if name == "tautology":
+            r = it.recv(e, env)
+            if isinstance(r, Opaque) and r.what == "zbddcache":
+                (lvl,) = it.args(e, env)
+                return Edge(("TAUT", lvl), None)
+        if m.endswith("Recursor::binary_ternary"):
+            it.recv(e, env)
+            _, f1, t1, f2, t2 = it.args(e, env)
+            out = []
+            for fv, t in ((f1, t1), (f2, t2)):
+                if not (isinstance(fv, tuple) and fv and fv[0] == "fnref") or fv[1].get("did") not in self.algos:
+                    raise Unrecognised("recursor operation %r" % (fv,))
+                out.append(self.apply_meaning(fv[1]["did"], [], list(t)))
+            return Enum(OK, [tuple(out)])
+        if name == "len":
+            r = it.recv(e, env)
+            if isinstance(r, (tuple, list)):
+                return len(r)
+            raise Unrecognised("len of %r" % (r,))
+        if m.endswith("Recursor::binary") or m.endswith("Recursor::ternary") or m.endswith("Recursor::subset") \
+                or m.endswith("Recursor::subst") or m.endswith("Recursor::unary"):
             it.recv(e, env)
             args = it.args(e, env)
             fv, tups = args[0], args[2:]
@@ -438,6 +512,8 @@ class StepDomain(epick.PickDomain):
             for g in fv[1].get("ga") or []:
                 if isinstance(g, dict):
                     consts.append(int(g["int"]) if "int" in g else env.get("$consts", {}).get(g["c"], g["c"]))
+            if m.endswith("Recursor::unary"):
+                tups = [(t,) for t in tups]
             return Enum(OK, [tuple(self.apply_meaning(did, consts, list(t)) for t in tups)])
         if m.endswith("Borrowed::<'a, E>::edge_with_tag"):
             r = it.recv(e, env)
@@ -466,7 +542,9 @@ class StepDomain(epick.PickDomain):
         did = f.get("did", "")
         if did in self.algos:
             args = [it.ev(a, env) for a in args_e]
-            edges = [a for a in args if isinstance(a, Edge)]
+            m = self.algos[did]
+            edges = [a for a in args if isinstance(a, Edge)] if not (isinstance(m, tuple) and m[0] == "build") else \
+                [a for a in args if isinstance(a, (Edge, int)) and not isinstance(a, bool)]
             return Enum(OK, [self.apply_meaning(did, self._consts_of(e, env), edges)])
         short = did.rsplit("::", 1)[-1]
         if did == "oxidd_core::DiagramRules::cofactors" and self.spec.bcdd:
@@ -480,6 +558,11 @@ class StepDomain(epick.PickDomain):
             level = args[1]
             kids = tuple(a for a in args[2:] if isinstance(a, Edge))
             return Enum(OK, [Edge(("MK", level, kids), self.default_tag())])
+        if did in ("std::cmp::Ord::cmp", "core::cmp::Ord::cmp"):
+            a, b = [it.ev(x, env) for x in args_e]
+            if isinstance(a, int) and isinstance(b, int):
+                return Enum(ORD + ("Less" if a < b else "Greater" if a > b else "Equal"))
+            raise Unrecognised("cmp of %r, %r" % (a, b))
         if did in ("core::cmp::min", "core::cmp::max", "std::cmp::min", "std::cmp::max"):
             a, b = [it.ev(x, env) for x in args_e]
             if isinstance(a, int) and isinstance(b, int):
@@ -576,8 +659,9 @@ def atoms_of(ops):
                 walk(k)
         elif n[0] == "T" and isinstance(n[1], tuple) and n[1] and n[1][0] == "sym" and n[1][1] not in out:
             out.append(n[1][1])
-    for o in ops:
-        walk(o)
+    for o in _flatten(ops):
+        if isinstance(o, Edge):
+            walk(o)
     return out
 
 
@@ -599,6 +683,8 @@ def valuations(spec, ops, names, levels):
             continue
         live = []
         for o in ops:
+            if not isinstance(o, Edge):
+                continue
             if o.node[0] == "S":
                 k = o.node[1].children[base[("v", o.node[1].level)]]
                 live += [a for a in atoms_of([k]) if a not in live]
@@ -621,8 +707,9 @@ def levels_of(ops):
             out.add(e.node[1].level)
             for k in e.node[1].children:
                 walk(k)
-    for o in ops:
-        walk(o)
+    for o in _flatten(ops):
+        if isinstance(o, Edge):
+            walk(o)
     return sorted(out)
 
 
@@ -630,7 +717,7 @@ def judge(spec, ops, res, want_op, dom, nfun=None):
     alg = spec.alg
     problems = []
     names = atoms_of(ops)
-    levels = levels_of(ops)
+    levels = sorted(set(levels_of(ops)) | set(getattr(spec, "always_levels", ())))
     want = want_op(ops) if callable(want_op) else Edge(("OP", want_op, tuple(ops)), None)
     # meaning
     bad = None
@@ -649,7 +736,8 @@ def judge(spec, ops, res, want_op, dom, nfun=None):
         problems.append("does not denote %s, e.g. for %s" % (lab(want), bad))
     # order
     if res.node[0] == "MK":
-        flv = [o.node[1].level for o in (ops if nfun is None else ops[:nfun]) if o.node[0] == "S"]
+        flv = [o.node[1].level for o in (ops if nfun is None else ops[:nfun]) if isinstance(o, Edge) and o.node[0] == "S"]
+        flv += [x for x in getattr(spec, "always_levels", ()) if any(isinstance(o, int) and o == x for o in ops)]
         top = min(flv) if flv else None
         if not isinstance(res.node[1], int) or top is None or res.node[1] < top:
             problems.append("new node is labelled with level %r, above the top-most operand level %r" % (res.node[1], top))
@@ -717,6 +805,25 @@ def _build_apply_quant(tag=None):
 
 def quant_of(q, op, edges, tag=None):
     return Edge(("OP", q, (Edge(("OP", op, (edges[0], edges[1])), tag), edges[2])), tag)
+
+
+def _build_subst(dom, consts, args):
+    es = [a for a in args if isinstance(a, Edge)]
+    tabs = [a for a in args if isinstance(a, (tuple, list))]
+    if len(es) != 1 or len(tabs) != 1:
+        raise Unrecognised("substitute call %r" % (args,))
+    return Edge(("OP", "Subst", (es[0],), tuple(tabs[0])), dom.default_tag())
+
+
+def subst_tables(var, atom_, swap12):
+    """replacement tables indexed by level (index 0 unused): identity, opaque replacements, a swap of two variables
+    (distinguishes simultaneous from sequential substitution), and a table that ends above the lowest level"""
+    d = atom_("unused")
+    return [("identity", (d, var(1), var(2), var(3))),
+            ("opaque replacements", (d, atom_("r1"), atom_("r2"), atom_("r3"))),
+            ("swap of the variables on levels 1 and 2", (d,) + swap12 + (var(3),)),
+            ("level 2 replaced by the variable on level 3 and vice versa", (d, var(1), var(3), var(2))),
+            ("short table", (d, atom_("r1"), var(2)))]
 
 
 def cube(levels, true_edge, false_edge, tag=None, canon=None):
@@ -840,6 +947,17 @@ def run_bdd(ctx, F, rule):
     sits = [("%s, cube %s" % (d, lits), [f, lit_cube(lits, T("True"), T("False"))])
             for d, f in f_shapes for lits in literal_sets()]
     n += check_step(ctx, F, rule, spec, mod + "::restrict", algos_r, sits, "Restrict", label="bdd restrict", nfun=1)
+    sits = [("f on level 1", [plain_node("f")(1)]), ("deep f", [deep_node("f", 1, plain_mk)]),
+            ("f is true", [T("True")]), ("f is false", [T("False")]), ("f is a variable", [var(2)])]
+    n += check_step(ctx, F, rule, spec, mod + "::apply_not", algos, sits, "Not", label="bdd apply_not")
+    algos_s = dict(algos)
+    algos_s[mod + "::substitute"] = ("build", _build_subst)
+    sits = []
+    for dt, tab in subst_tables(var, atom, (var(2), var(1))):
+        for d, f in f_shapes + [("f on level 3", plain_node("f")(3))]:
+            sits.append(("%s, %s" % (d, dt), [f, tab, 77]))
+    n += check_step(ctx, F, rule, spec, mod + "::substitute", algos_s, sits,
+                    lambda ops3: Edge(("OP", "Subst", (ops3[0],), tuple(ops3[1])), None), label="bdd substitute", nfun=1)
     algos_q[mod + "::apply_quant"] = _build_apply_quant()
     for q in ("And", "Or", "Xor"):
         for opn in sorted(tables.BDD_SPEC):
@@ -925,6 +1043,17 @@ def run_bcdd(ctx, F, rule):
             for lits in literal_sets():
                 sits.append(("%s (%s%s), cube %s" % (d, ft, fe, lits), [f, lit_cube(lits, TT(P), TT(C), mk)]))
     n += check_step(ctx, F, rule, spec, mod + "::restrict", algos_r, sits, "Restrict", label="bcdd restrict", nfun=1)
+    algos_s = dict(algos)
+    algos_s[mod + "::substitute"] = ("build", _build_subst)
+    bvar = lambda level: snode("x", level, [TT(P), TT(C)], P)
+    sits = []
+    for dt, tab in subst_tables(bvar, lambda nm: atom(nm, P), (bvar(2), flip(bvar(1)))):
+        for ft, fe in itertools.product("pc", repeat=2):
+            for d, f in (("f on level 1", bcdd_operand("f", ft, fe)(1)), ("f on level 2", bcdd_operand("f", ft, fe)(2)),
+                         ("f on level 3", bcdd_operand("f", ft, fe)(3)), ("deep f on level 1", deep_node("f", 1, bcdd_mk(ft, fe)))):
+                sits.append(("%s (%s%s), %s" % (d, ft, fe, dt), [f, tab, 77]))
+    n += check_step(ctx, F, rule, spec, mod + "::substitute", algos_s, sits,
+                    lambda ops3: Edge(("OP", "Subst", (ops3[0],), tuple(ops3[1])), P), label="bcdd substitute", nfun=1)
     # quantification
     algos_q = dict(algos)
     algos_q[mod + "::quant"] = _const_quant
@@ -973,6 +1102,44 @@ def run_zbdd(ctx, F, rule):
         sits.append(("g is Base", [plain_node("f")(1), base]))
         sits.append(("f is Base", [base, plain_node("g")(1)]))
         n += check_step(ctx, F, rule, spec, mod + "::" + fn, algos, sits, nm, label="zbdd " + fn)
+    # if-then-else on the Boolean-function view (characteristic functions)
+    algos_i = dict(algos)
+    algos_i[mod + "::apply_ite"] = "Ite"
+    extra = [("g is Base", [plain_node("f")(1), base, plain_node("h")(2)]),
+             ("h is Base", [plain_node("f")(2), plain_node("g")(1), base]),
+             ("f is Base", [base, plain_node("g")(1), plain_node("h")(1)]),
+             ("g, h are Base / node", [plain_node("f")(1), base, plain_node("h")(1)])]
+    n += check_step(ctx, F, rule, spec, mod + "::apply_ite", algos_i,
+                    ite_situations(plain_node("f"), plain_node("g"), plain_node("h"), extra), "Ite", label="zbdd apply_ite")
+    # subset0 / subset1 / change
+    SUB = {0: "Subset0", 1: "Subset1", -1: "Change"}
+
+    def build_subset(dom, consts, args):
+        if len(consts) != 1 or isinstance(consts[0], str):
+            raise Unrecognised("subset VAL %r" % (consts,))
+        v = consts[0]
+        v = v - 256 if v > 127 else v
+        es = [a for a in args if isinstance(a, Edge)]
+        ints = [a for a in args if isinstance(a, int)]
+        if v not in SUB or len(es) != 1 or len(ints) != 2:
+            raise Unrecognised("subset instance VAL=%r args=%r" % (v, args))
+        return Edge(("OP", SUB[v], (es[0],), ints[1], ints[0]), None)
+    algos_s = dict(algos)
+    algos_s[mod + "::subset"] = ("build", build_subset)
+    spec = Spec(tables.ZBDD, ALG_ZBDD, mod, root, root + "::ZBDDOp", lambda e, val: tv[e.node[1].short])
+    spec.always_levels = (1, 2, 3)
+    empty = Edge(("T", Enum(tables.ZBDD.terminal_enum + "::Empty")), None)
+    for val, nm in sorted(SUB.items()):
+        sits = []
+        for vl in (1, 2, 3):
+            shapes = [("f on level %d" % lf, plain_node("f")(lf)) for lf in (1, 2, 3)]
+            shapes += [("deep f on level %d" % lf, deep_node("f", lf, plain_mk)) for lf in (1, 2)]
+            shapes += [("f is Base", base)]
+            for d, f in shapes:
+                sits.append(("%s, variable on level %d" % (d, vl), [f, 40 + vl, vl]))
+        n += check_step(ctx, F, rule, spec, mod + "::subset", algos_s, sits,
+                        (lambda nm: lambda ops3: Edge(("OP", nm, (ops3[0],), ops3[2], ops3[1]), None))(nm),
+                        consts={"VAL": val}, label="zbdd subset<%s>" % nm, nfun=1)
     return n
 
 
@@ -1002,6 +1169,13 @@ def run_mtbdd(ctx, F, rule):
              ("g, h are terminals", [plain_node("f")(1), c1, c2])]
     n += check_step(ctx, F, rule, spec2, mod + "::apply_ite", algos2,
                     ite_situations(plain_node("f"), plain_node("g"), plain_node("h"), extra), "Ite", label="mtbdd apply_ite")
+    algos_r = dict(algos)
+    algos_r[mod + "::restrict"] = "Restrict"
+    one, zero = Edge(("T", ("const", 1)), None), Edge(("T", ("const", 0)), None)
+    f_shapes = [("f on level 1", plain_node("f")(1)), ("f on level 2", plain_node("f")(2)),
+                ("deep f on level 1", deep_node("f", 1, plain_mk)), ("deep f on level 2", deep_node("f", 2, plain_mk))]
+    sits = [("%s, cube %s" % (d, lits), [f, lit_cube(lits, one, zero)]) for d, f in f_shapes for lits in literal_sets()]
+    n += check_step(ctx, F, rule, spec, mod + "::restrict", algos_r, sits, "Restrict", label="mtbdd restrict", nfun=1)
     return n
 
 
@@ -1025,6 +1199,10 @@ def run_tdd(ctx, F, rule):
              ("f, g are unknown", [U, U, h3(1)]), ("f, h are unknown", [U, g3(1), U])]
     n += check_step(ctx, F, rule, spec, mod + "::apply_ite_rec", algos, ite_situations(f3, g3, h3, extra), "Ite",
                     label="tdd apply_ite_rec")
+    TT3 = lambda v: Edge(("T", Enum(tables.TDD.terminal_enum + "::" + v)), None)
+    sits = [("f on level 1", [f3(1)]), ("f is true", [TT3("True")]), ("f is unknown", [U]), ("f is false", [TT3("False")]),
+            ("f with terminal children", [snode("f", 2, [TT3("True"), U, TT3("False")])])]
+    n += check_step(ctx, F, rule, spec, mod + "::apply_not", algos, sits, "Not", label="tdd apply_not")
     return n
 
 
